@@ -428,11 +428,14 @@ Definition seq_check_ok (items : list bool) : verdict := guard (negb (forallb (f
 Definition seq_values_ok (variables given : list string) : verdict :=
   guard (existsb (fun v => negb (smem v given)) variables) ValueError.
 Definition not_magnitude (s : string) : bool := negb (String.eqb s "magnitude").
+(* every name requested in order2 except "magnitude" itself must be a variable of the sequence,
+   also when it only occurs in pairs with "magnitude" *)
+Definition unknown_var (variables : list string) (v : string) : bool :=
+  not_magnitude v && negb (smem v variables).
 Definition seq_build_ok (variables order1 : list string) (order2 : list (string * string))
            (given : list string) : verdict :=
   guard (existsb (fun v => negb (smem v variables)) (filter not_magnitude order1)) ValueError >>
-  guard (existsb (fun p => negb (smem (fst p) variables) || negb (smem (snd p) variables))
-           (filter (fun p => not_magnitude (fst p) && not_magnitude (snd p)) order2)) ValueError >>
+  guard (existsb (fun p => unknown_var variables (fst p) || unknown_var variables (snd p)) order2) ValueError >>
   seq_values_ok variables given.
 Close Scope string_scope.
 
